@@ -1341,13 +1341,74 @@ func (e *c05Eng) assignLin(st *c05State, key string, l c05Lin) {
 		d := c05Atom(key).addScaled(l, -1)
 		eq = []c05Lin{d, d.neg()}
 	}
+	derived := e.eliminate(st, key)
 	e.kill(st, key)
+	for _, f := range derived {
+		st.facts = c05AddFact(st.facts, f)
+	}
 	delete(val.lo, key)
 	delete(val.hi, key)
 	st.env[key] = val
+	// key := a + k  also bounds a from both sides (a == key - k), until one of them is reassigned
+	if len(l.t) == 1 {
+		for a, c := range l.t {
+			if c == 1 && a != key && !c05IsGeo(a) && !c05IsTmp(a) {
+				av := e.setBound(st, a)
+				av.addLo(key, -l.k)
+				av.addHi(key, -l.k)
+			}
+		}
+	}
 	for _, f := range eq {
 		st.facts = c05AddFact(st.facts, f)
 	}
+}
+
+// eliminate: what the facts and bounds about key imply for the other variables once key is gone
+// (one Fourier-Motzkin step; only relations between at least two other atoms are kept).
+func (e *c05Eng) eliminate(st *c05State, key string) []c05Lin {
+	var ups, los []c05Lin // key <= U  as  key - U <= 0 ;  key >= L  as  L - key <= 0
+	for _, f := range st.facts {
+		switch f.t[key] {
+		case 1:
+			ups = append(ups, f)
+		case -1:
+			los = append(los, f)
+		}
+	}
+	if len(ups)+len(los) == 0 {
+		return nil
+	}
+	if v, ok := st.env[key]; ok && !v.bot {
+		for s, k := range v.hi {
+			if s != "" && s != key && !c05IsTmp(s) {
+				l := c05Atom(key).addScaled(c05Atom(s), -1)
+				l.k -= k
+				ups = append(ups, l)
+			}
+		}
+		for s, k := range v.lo {
+			if s != "" && s != key && !c05IsTmp(s) {
+				l := c05Atom(s).addScaled(c05Atom(key), -1)
+				l.k += k
+				los = append(los, l)
+			}
+		}
+	}
+	var out []c05Lin
+	for _, u := range ups {
+		for _, l := range los {
+			d := u.addScaled(l, 1)
+			if d.mentions(key) || len(d.t) < 2 || len(d.t) > 4 {
+				continue
+			}
+			out = append(out, d)
+			if len(out) >= 8 {
+				return out
+			}
+		}
+	}
+	return out
 }
 
 func (e *c05Eng) killDependents(st *c05State, key string) {
